@@ -504,6 +504,27 @@ def rule_identity(repo: Repo) -> RuleResult:
     pm = parent_map(f.node)
     g = C.cfg_of(f.node)
 
+    rd = L.rd_of(f)
+
+    def is_map_lookup(x: ast.AST) -> bool:
+        """`map.get(key)` on the returned map, directly or through a local: EVERY definition of the local that reaches the use is such
+        a lookup (a helper analysed in place at several call sites binds the same local once per site)"""
+        if isinstance(x, ast.Name):
+            at = g.node_containing(x)
+            defs_ = rd.defs_reaching(at, x.id) if at is not None else set()
+            vals = []
+            for d in defs_:
+                st = g.stmt[d]
+                if isinstance(st, ast.Assign) and len(st.targets) == 1 and isinstance(st.targets[0], ast.Name) and st.targets[0].id == x.id:
+                    vals.append(st.value)
+                elif isinstance(st, ast.AnnAssign) and isinstance(st.target, ast.Name) and st.value is not None:
+                    vals.append(st.value)
+                else:
+                    return False
+            return bool(vals) and all(not isinstance(v, ast.Name) and is_map_lookup(v) for v in vals)
+        return isinstance(x, ast.Call) and isinstance(x.func, ast.Attribute) and x.func.attr == "get" and len(x.args) == 1 \
+            and isinstance(x.func.value, ast.Name) and x.func.value.id in maps
+
     def absent_guard(node: ast.AST, keyname: Optional[str]) -> bool:
         """is `node` inside the branch of an `if key (not) in map` test that establishes absence?"""
         cur = node
@@ -517,12 +538,7 @@ def rule_identity(repo: Repo) -> RuleResult:
                 # `existing = map.get(key)` ... `if existing is None:` establishes absence as well
                 if isinstance(t, ast.Compare) and len(t.ops) == 1 and isinstance(t.ops[0], (ast.Is, ast.IsNot, ast.Eq, ast.NotEq)) and \
                         isinstance(t.comparators[0], ast.Constant) and t.comparators[0].value is None:
-                    looked_up = t.left
-                    if isinstance(looked_up, ast.Name):
-                        defs_ = [v_ for nm_, v_, _s in C.simple_bindings(f.node) if nm_ == looked_up.id]
-                        looked_up = defs_[0] if len(defs_) == 1 else looked_up
-                    if isinstance(looked_up, ast.Call) and isinstance(looked_up.func, ast.Attribute) and looked_up.func.attr == "get" and len(looked_up.args) == 1 \
-                            and isinstance(looked_up.func.value, ast.Name) and looked_up.func.value.id in maps:
+                    if is_map_lookup(t.left):
                         absent_when_true = isinstance(t.ops[0], (ast.Is, ast.Eq)) != neg
                         in_body = any(cur is s or cur in ast.walk(s) for s in par.body)
                         if (absent_when_true and in_body) or ((not absent_when_true) and not in_body):
@@ -552,12 +568,7 @@ def rule_identity(repo: Repo) -> RuleResult:
     def present_matcher(e):
         """atom 'present': a name is (already) a key of the returned map -- `k in map`, `map.get(k) is not None`, also through a local
         that holds the result of the lookup"""
-        def lookup_of(x):
-            if isinstance(x, ast.Name):
-                defs_ = [v_ for nm_, v_, _s in C.simple_bindings(f.node) if nm_ == x.id]
-                x = defs_[0] if len(defs_) == 1 else x
-            return isinstance(x, ast.Call) and isinstance(x.func, ast.Attribute) and x.func.attr == "get" and len(x.args) == 1 \
-                and isinstance(x.func.value, ast.Name) and x.func.value.id in maps
+        lookup_of = is_map_lookup
         if isinstance(e, ast.Compare) and len(e.ops) == 1:
             op, rhs = e.ops[0], e.comparators[0]
             if isinstance(op, (ast.In, ast.NotIn)) and isinstance(rhs, ast.Name) and rhs.id in maps:
@@ -834,7 +845,7 @@ def rule_tokenwalk(repo: Repo, rid: str = "C06.tokenwalk") -> RuleResult:
     # (a) the walk is not left while tokens remain
     r.site(f.qn + " [walk not left early]")
     val_more = {"more": True} if "more" in G.atoms_seen else {}
-    if L.leaves_loop_early(G, val_more, w.loop):
+    if w.leaves_walk_early(val_more):
         r.fail(Finding(rid, f, "token-walk:left-early", "the loop over the declaration tokens can be left (break / return) while tokens remain: the "
                        "declaration lines after that point are ignored", node=w.loop))
     else:
